@@ -123,7 +123,7 @@ func (e *Engine) prepareGoalMode2(hyp, goal *Term, dropQ bool, strict bool) []*T
 						addArg(a)
 						// a wrapped successor ite(.., i+1-2^64, ite(.., .., i+1)): also i,
 						// so that a hypothesis about element k+1 can be used at k = i
-						if a.Op == "ite" || a.Op == "+" || a.Op == "-" {
+						if a.Op == "ite" || a.Op == "+" || a.Op == "-" || a.Op == "div" {
 							indexLeaves(a, addArg, add, 0)
 						}
 					}
@@ -371,6 +371,12 @@ func indexLeaves(t *Term, addArg, add func(*Term), depth int) {
 	case "+", "-":
 		for _, a := range t.Args {
 			indexLeaves(a, addArg, add, depth+1)
+		}
+	case "div":
+		// byte index of a bit number (i>>3): the bit number itself is what a
+		// hypothesis about bits is to be instantiated at
+		if len(t.Args) == 2 && t.Args[1].IsConst() {
+			addArg(t.Args[0])
 		}
 	}
 }
